@@ -79,11 +79,29 @@ func plan(c *vf.Ctx) []spec {
 		hi := min(lo+per, len(cases))
 		jobs = append(jobs, spec{Kind: "mix", Seed: c.Seed, Writers: writers, Prepop: c.N(150, 300), Cases: cases[lo:hi]})
 	}
+	// storm: binary backups only, five clients at once
+	var storm []bcase
+	ns := c.N(60, 600)
+	for i := 0; i < ns; i++ {
+		b := bcase{Fmt: "binary", Compress: i%2 == 1, Route: routes[i%3]}
+		if b.Route == "forward" {
+			b.Compress = false // (forwarded+compress is the known 4s stall)
+		}
+		storm = append(storm, b)
+	}
+	r.Shuffle(len(storm), func(i, j int) { storm[i], storm[j] = storm[j], storm[i] })
+	for i := range storm {
+		storm[i].No = len(cases) + i
+	}
+	for lo := 0; lo < len(storm); lo += 150 {
+		hi := min(lo+150, len(storm))
+		jobs = append(jobs, spec{Kind: "storm", Seed: c.Seed, Writers: writers, Prepop: c.N(400, 600), Cases: storm[lo:hi]})
+	}
 	// cuts: sampled positions for every (format, compress, mode)
 	pos := []string{"abs:0", "abs:1", "abs:7", "abs:8", "abs:9", "abs:17", "abs:18", "abs:19", "abs:40",
 		"pm:30", "pm:100", "pm:200", "pm:300", "pm:400", "pm:500", "pm:600", "pm:700", "pm:800", "pm:900", "pm:970",
 		"end:-9", "end:-8", "end:-2", "end:-1", "end:0"}
-	no := len(cases)
+	no := len(cases) + len(storm)
 	var cuts []bcase
 	for _, mode := range []string{"reset", "eof"} {
 		for _, comp := range []bool{false, true} {
@@ -142,7 +160,7 @@ func plan(c *vf.Ctx) []spec {
 }
 
 func run(c *vf.Ctx) {
-	c.Rule("case = one HTTP backup request against a leader+follower cluster. mix cases: every combination of {binary, delete, sql} x vacuum x compress x tables filter {none, all four, a+meta, b+bal} x {leader, follower forwarding to the leader, follower ?noleader}, issued by two backup clients while 3 writers commit cross-table transactions; non-trivial = 200 response that restored while at least one writer committed between request and response, distinct by (combination, restored vector of per-writer last). cut cases: forwarded backup whose follower->leader cluster connection delivers only N bytes (faultnet reset, or a clean close by the peer), N sampled incl. 0, 7/8/9 (response header boundary), 18 (gzip header), last byte, L (quick) or every byte position (thorough); non-trivial = the cut fired, distinct by (format, compress, mode, N)")
+	c.Rule("case = one HTTP backup request against a leader+follower cluster. mix cases: every combination of {binary, delete, sql} x vacuum x compress x tables filter {none, all four, a+meta, b+bal} x {leader, follower forwarding to the leader, follower ?noleader}, issued by two backup clients while 3 writers commit cross-table transactions, plus a storm of binary backups from five clients at once (every binary backup snapshots first, so copies of the main file overlap checkpoints); non-trivial = 200 response that restored while at least one writer committed between request and response, distinct by (combination, restored vector of per-writer last). cut cases: forwarded backup whose follower->leader cluster connection delivers only N bytes (faultnet reset, or a clean close by the peer), N sampled incl. 0, 7/8/9 (response header boundary), 18 (gzip header), last byte, L (quick) or every byte position (thorough); non-trivial = the cut fired, distinct by (format, compress, mode, N)")
 	c.Assume("the restored file is judged with the stock SQLite driver (sqlref), not with rqlite code")
 	c.Assume("writers talk to the leader directly; a writer whose request outcome is unknown stops, so 'started' is an upper bound of what can be committed")
 	c.Assume("no lower bound on freshness is asserted (the property says 'a single point in time', not 'the newest'); staleness is only recorded")
@@ -260,6 +278,9 @@ func replayJobs(c *vf.Ctx) []spec {
 	}
 	bc := f.Case.Res.Case
 	kind := "mix"
+	if f.Case.Res.Storm {
+		kind = "storm"
+	}
 	if bc.CutMode != "" {
 		kind = "cut"
 		if f.Case.Res.N > 0 || bc.CutPos == "" {
@@ -295,6 +316,9 @@ func judge(c *vf.Ctx, r *bres) {
 		}
 	} else {
 		c.Count("route:"+bc.Route, 1)
+		if r.Storm {
+			c.Count("storm_cases", 1)
+		}
 	}
 	// 1. anything that is not a normally terminated 200 is "reported as an error"
 	if r.ReqErr != "" {
